@@ -15,12 +15,17 @@ META = dict(
                 'nothing, the new value, what the old file gave, or an explicitly characterised CRC-32 collision (deadline, length and CRC of the '
                 'header it is read under, every byte the old file byte / new payload byte / hole zero at its position, and not the value that '
                 'header was written for); the unconditional statement is refuted by a concrete 6-byte witness (KNOWN FINDING '
-                'torn-write-crc32-collision, replayed on the real storage on every run). What load returns lies inside the file and has the '
+                'torn-write-crc32-collision, replayed on the real storage on every run), while a torn state that differs from the new value only '
+                'inside a window of <= 4 consecutive bytes is proved to be rejected (CRC-32 burst theorem, all lengths). The crash family of the '
+                'property text (stream prefix x sector subset) is an instance; no progress = old file, full progress = the completed save. What load returns lies inside the file and has the '
                 'length of the header. Without a crash save-then-load returns the value iff not expired, over any old file. By induction over '
                 'every history of saves/crashed saves/removes/loads/gc: the file is empty, starts with a zero hole or with the header of an earlier '
                 'save, so the crash theorem applies at every point and any value ever returned carries the deadline, length and CRC of some '
                 'earlier save. gc keeps exactly the entries whose name is not 32 hex digits or whose timestamp is readable and not past, never '
-                'removes a record that load would accept, never touches foreign names; load removes what it cannot read and nothing else. The '
+                'removes a record that load would accept, never touches foreign names; load removes what it cannot read and nothing else. session_sid::valid_sid lets exactly I + 32 lower-case hex digits through '
+                '(always a name gc looks at) and the second expiry test of session_sid::load is shown dead. The buffer that read_from_file '
+                'allocates from the size field is never larger than a saved payload after any history of saves and crashes, but a planted '
+                '19-byte file asks for gigabytes (KNOWN FINDING garbage-size-field-bad-alloc: std::bad_alloc escapes load, nothing removed). The '
                 'bundled CRC table of private/crc32.h is regenerated from source and proved equal to the bit model, and the table-driven loop is '
                 'proved equal to the bit-by-bit CRC; the zlib path, the write sequence and every other code path are tied by running the '
                 'extracted model and the real storage on the same scripts.'),
@@ -313,6 +318,26 @@ def gen_cases(ctx):
         now = rng.choice([1000, 2000, 2001, 2500, 3000, 3001])
         ops += ['Q:%d:%s' % (now, hexs(rng.choice([ck, ck, bad]))), 'Q:%d:%s' % (now, hexs(ck)), L(0, now)]
         cases.append(case(ops, names=(nm,), flock=rng.randrange(2)))
+    # G10b: the same with processes instead of threads (fcntl lock with inode re-check; F1 only)
+    for _ in range(ctx.scale(8, 40)):
+        cases.append(case(['U:0:%d:%d:%d:%d' % (rng.choice([5000, 9000]), rng.choice([1, 2, 3]), ctx.scale(300, 1500), rng.choice([1, 100, 480, 3000])), L(0, 100)],
+                          flock=1))
+    # G11: planted files whose size field is far larger than the file, loaded with 256 MiB of address space to spare: the buffer is allocated
+    # from the size field before the file length is known (KNOWN FINDING garbage-size-field-bad-alloc when the allocation throws)
+    for _ in range(ctx.scale(60, 400)):
+        size = rng.choice([2 ** 30, 2 ** 30 + 5, 2 ** 31 - 16, 2 ** 31, 2 ** 32 - 1, 0, 3, 2 ** 20, 2 ** 24 + 1])
+        t = rng.choice([5000, 5000, 1000, 999, I64MAX])
+        tail = rb(rng, rng.choice([0, 3, 3, 40]))
+        raw = struct.pack('<qII', t, rng.choice([0, zlib.crc32(tail), rng.getrandbits(32)]), size) + tail
+        if rng.random() < 0.15:
+            raw = raw[:rng.choice([8, 12, 15])]
+        cases.append(case([P(0, raw), 'M:0:1000:256', 'G:1000', 'M:0:1000:256', 'G:%d' % rng.choice([1001, 6000])], flock=rng.randrange(2)))
+    # and after real saves and crashes the size field never asks for more than a saved payload
+    for _ in range(ctx.scale(40, 300)):
+        d_old, d_new = rb(rng, rng.choice([0, 5, 600])), rb(rng, rng.choice([0, 5, 600]))
+        total = 16 + len(d_new)
+        cases.append(case([S(0, 2000, d_old), K(0, 3000, d_new, [rng.choice([0, 16, total, rng.randrange(16, total + 1)])]), 'M:0:1000:256', L(0, 1000)],
+                          flock=rng.randrange(2)))
     # G10: threads on one session (per-sid mutex, with and without the fcntl lock): a load that runs while other threads save must see a
     # complete record, never a half-written one (which it would also unlink)
     for _ in range(ctx.scale(12, 60)):
@@ -519,6 +544,15 @@ def oracle(case_line, out):
                 if prev != summ:
                     return ('invalid-cookie-touched-storage', 'an operation with a cookie that names no stored session changed the directory')
                 continue
+        if op == 'M':
+            if res == 'M=EXC':
+                i = int(a[1])
+                return ('garbage-size-field-bad-alloc',
+                        'load threw std::bad_alloc (and removed nothing) with %s MiB of address space to spare: read_from_file allocates the buffer from '
+                        'the size field before it knows the file length' % a[3])
+            op, a, res = 'L', ['L', a[1], a[2]], 'L' + res[1:]
+        if op == 'U':
+            op, res = 'T', 'T' + res[1:]
         if op == 'T':
             if res != 'T=ok':
                 return ('concurrent-access-corruption', 'loads running concurrently with saves of the same session failed or returned a value '
@@ -610,7 +644,7 @@ def oracle(case_line, out):
 def nontrivial(case_line, out):
     if case_line.startswith('E '):
         return ' C:' in case_line
-    return ' K:' in case_line or ' P:' in case_line or ' G:' in case_line or ' V:' in case_line or ' Q:' in case_line or ' T:' in case_line
+    return ' K:' in case_line or ' P:' in case_line or ' G:' in case_line or ' V:' in case_line or ' Q:' in case_line or ' T:' in case_line or ' U:' in case_line or ' M:' in case_line
 
 
 def classify(case_line, out):
@@ -619,7 +653,7 @@ def classify(case_line, out):
         return 'api:' + ('crash' if ' C:' in case_line else 'save-load') + (':none' if last and last[-1].startswith('R=none') else ':some' if last else '')
     ops = case_line.split()[2:]
     kinds = set(x[0] for x in ops)
-    k = 'cookie' if kinds == {'V'} else 'threads' if 'T' in kinds else 'crash' if 'K' in kinds else 'garbage' if 'P' in kinds else 'gc' if 'G' in kinds else 'save-load'
+    k = 'cookie' if kinds == {'V'} else 'threads' if 'T' in kinds else 'processes' if 'U' in kinds else 'crash' if 'K' in kinds else 'garbage' if 'P' in kinds else 'gc' if 'G' in kinds else 'save-load'
     if k == 'crash':
         ks = [x for x in ops if x[0] == 'K']
         ns = len(ks[-1].split(':')[4].split(','))
